@@ -169,8 +169,8 @@ def run(ctx):
             out.append(None if p is None else (bytes.fromhex(p["out"]) if p["st"] == 0 and p.get("out", "-") != "-" else ("err", p["st"])))
         return out, cr
 
-    def w2x(items):          # [(wbxml, keep, lang)]
-        a, cr = common.run_lines(h01, [cc.w2x_line(w, lang=L, gen=0, keep=k, dump=1) for w, k, L in items], timeout=1200)
+    def w2x(items, gen=0, indent=0):          # [(wbxml, keep, lang)]
+        a, cr = common.run_lines(h01, [cc.w2x_line(w, lang=L, gen=gen, indent=indent, keep=k, dump=1) for w, k, L in items], timeout=1200)
         out = []
         for r in a:
             p = cc.parse_answer(r)
@@ -237,6 +237,54 @@ def run(ctx):
         bump("second iteration byte-identical")
         if w2 != w1:
             bump("(observation) second WBXML differs from the first although the XML is identical")
+    # ---- the way back in INDENT generation (the tools' default), on a sample of the cases.  keep-ws off: as strict as above.
+    #      keep-ws on: the indentation the generator inserts is character data for a white-space-preserving reader, so the
+    #      output grows at every trip (found by the second-iteration theorem, D38): registered known finding
+    #      `indent-generation-with-keep-ws`, recognised by its exact shape (indent + keep-ws, and the two results are equal
+    #      once white-space-only text and surrounding white space are ignored); anything else is a violation.
+    _init(tj)
+    step = max(1, len(ok1) // (160 if quick else 1600))
+    samp = [i for i in ok1[ctx.seed % step::step]]
+    for ind in (1, 2, 4):
+        sub = samp[ind % 3::3]
+        Xa, cr = w2x([(W1[i], cases[i][1][2], force(cases[i][0])) for i in sub], gen=1, indent=ind); crashes += cr
+        okA = [i for i, x in zip(sub, Xa) if isinstance(x, bytes)]
+        XA = dict(zip(sub, Xa))
+        Wb, cr = x2w([(XA[i], cases[i][1]) for i in okA]); crashes += cr
+        WB = dict(zip(okA, Wb))
+        okB = [i for i in okA if isinstance(WB[i], bytes)]
+        Xb, cr = w2x([(WB[i], cases[i][1][2], force(cases[i][0])) for i in okB], gen=1, indent=ind); crashes += cr
+        XB = dict(zip(okB, Xb))
+        for i in sub:
+            si, o = cases[i]
+            name, x = srcs[si]
+            lid = info[si][0]
+            pay = {"source_xml_hex": x.hex(), "source": name, "lang": lid, "options": {"version": o[0], "use_strtbl": o[1], "keep_ws": o[2], "gen": "indent", "indent": ind}}
+            if name == "corpus:ddf/syncml_with_ddf-001.xml" and o[2] == 1:
+                continue
+            xa = XA.get(i)
+            if not isinstance(xa, bytes):
+                if isinstance(X1.get(i), bytes):
+                    violations.append({"what": "wbxml2xml-refuses-own-output", **pay, "status": xa, "wbxml": W1[i].hex()})
+                continue
+            bump("indent way back: converted")
+            d = _cmp((x, xa, lid, False))         # white-space-insensitive comparison with the source
+            if d:
+                violations.append({"what": "round-trip-changes-document", **pay, "differences": d[:4], "result_xml": xa.decode("utf-8", "replace")[:3000]})
+                continue
+            xb = XB.get(i)
+            if xb == xa:
+                bump("indent way back: second iteration byte-identical")
+                continue
+            same_mod_blank = isinstance(xb, bytes) and not _cmp((xa, xb, lid, False))
+            if o[2] == 1 and same_mod_blank:
+                known.setdefault("indent-generation-with-keep-ws", []).append(pay)
+                continue
+            if not isinstance(WB.get(i), bytes):
+                violations.append({"what": "second-iteration-refused", **pay, "status": WB.get(i), "first_result_xml": xa.decode("utf-8", "replace")[:3000]})
+            else:
+                violations.append({"what": "second-iteration-differs", **pay, "first_result_xml": xa.decode("utf-8", "replace")[:3000],
+                                   "second_result_xml": xb.decode("utf-8", "replace")[:3000] if isinstance(xb, bytes) else xb})
     for cr in crashes:
         violations.append({"what": "crash-or-sanitizer-report", **cr})
 
